@@ -23,13 +23,13 @@ import (
 func NewEnv() types.EnvType {
 	e := env.NewEnv()
 	if err := nscore.Load(e); err != nil {
-		panic(err)
+		panic("library load failed: nscore: " + err.Error())
 	}
 	if err := nsconcurrent.Load(e); err != nil {
-		panic(err)
+		panic("library load failed: nsconcurrent: " + err.Error())
 	}
 	if err := nscoreextended.Load(e); err != nil {
-		panic(err)
+		panic("library load failed: nscoreextended: " + err.Error())
 	}
 	return e
 }
